@@ -236,6 +236,14 @@ Theorem C19_encoder_subframe_bound : forall o L bps xs,
   sf_bits bps (enc_sub o L bps xs) <= 8 + N.of_nat (length xs) * bps.
 Proof. exact enc_sub_bits. Qed.
 
+(* ... and per frame: at most 16 header bytes + the channels verbatim (8 bits + n x depth each, one more bit
+   per sample for the side channel of a stereo pair) rounded up to bytes + 2 CRC bytes *)
+Theorem C19_encoder_frame_bound : forall o L si rate bps number chans bytes,
+  enc_frame_bytes o L rate bps number chans = Some bytes -> block_ok si bps chans ->
+  let ch := N.of_nat (length chans) in let n := block_len chans in
+  N.of_nat (length bytes) <= 16 + (ch * (8 + n * bps) + (if ch =? 2 then n else 0) + 7) / 8 + 2.
+Proof. exact enc_frame_size. Qed.
+
 (* non-vacuity: a 16-bit stereo block of 6 samples satisfies block_ok and the model encoder turns it into
    a side/right frame with FIXED predictors, which decodes back *)
 Definition ex_si : streaminfo := {| si_min_bs := 16; si_max_bs := 16; si_min_fs := 0; si_max_fs := 0; si_rate := 44100;
